@@ -14,8 +14,10 @@ var verifV *VerifV
 
 // Stub for hash/crc32.Checksum: an uninterpreted function of the exact bytes
 // (nothing is assumed about its error-detection strength).
+var verifCRCInjective bool
+
 func verifStubCRC(data []byte, tab *crc32.Table) uint32 {
-	o := verifV.UF("crc32c", false, 4, data)
+	o := verifV.UF("crc32c", verifCRCInjective, 4, data)
 	return uint32(o[0])<<24 | uint32(o[1])<<16 | uint32(o[2])<<8 | uint32(o[3])
 }
 
@@ -29,6 +31,18 @@ func VerifC15_W1(v *VerifV) {
 	verifV = v
 	L := v.Len("len", 0, v.Param("L"))
 	b := v.Bytes("b", L)
+	if L >= 8 {
+		// region of the length field: small lengths are explored completely; for large ones only
+		// the rejection above the limit and the allocation bound are decided (engine cut at make)
+		if v.Param("BIG") == 1 {
+			v.Assume(verifBE32(b[4:8]) > 16)
+		} else {
+			v.Assume(verifBE32(b[4:8]) <= 16)
+		}
+	}
+	if v.Param("PFX") == 1 && L >= 10 {
+		v.Assume(b[8] == 0x0a && b[9] == 0x00) // payload starts with an (empty) time field
+	}
 	dec := NewWALDecoder(bytes.NewReader(b))
 	msg, err := dec.Decode()
 	switch {
@@ -55,17 +69,66 @@ func VerifC15_W1(v *VerifV) {
 	}
 }
 
+// verifMkMsg: a WAL message with symbolic fields. To keep the number of varint-length
+// combinations small, exactly one field per message ranges over its full width; the
+// others are symbolic below 128 (one varint byte).
 func verifMkMsg(v *VerifV) WALMessage {
+	if v.Param("SMALL") == 1 {
+		// sequence mode: small fields only
+		h := v.U64("h")
+		v.Assume(h < 128)
+		switch v.Choice("kind", 3) {
+		case 0:
+			v.Cover("endheight")
+			return EndHeightMessage{Height: int64(h)}
+		case 1:
+			v.Cover("timeout")
+			return timeoutInfo{Duration: time.Duration(1000), Height: h, Round: 1, Step: cstypes.RoundStepType(3)}
+		default:
+			v.Cover("roundstate")
+			return types.EventDataRoundState{Height: h, Round: 2, Step: "RoundStepPrevote"}
+		}
+	}
+	small64 := func(name string) uint64 { x := v.U64(name); v.Assume(x < 128); return x }
+	small32 := func(name string) uint32 { x := v.U32(name); v.Assume(x < 128); return x }
 	switch v.Choice("kind", 3) {
 	case 0:
 		v.Cover("endheight")
 		return EndHeightMessage{Height: v.I64("height")}
 	case 1:
 		v.Cover("timeout")
-		return timeoutInfo{Duration: time.Duration(v.I64("dur")), Height: v.U64("h"), Round: v.U32("r"), Step: cstypes.RoundStepType(v.U8("step"))}
+		w := 1 + v.Choice("wide", 3)
+		if v.Param("WIDEDUR") == 1 {
+			w = 0
+		}
+		ti := timeoutInfo{}
+		if w == 0 {
+			ti.Duration = time.Duration(v.I64("dur"))
+		} else {
+			ti.Duration = time.Duration(small64("dur"))
+		}
+		if w == 1 {
+			ti.Height = v.U64("h")
+		} else {
+			ti.Height = small64("h")
+		}
+		if w == 2 {
+			ti.Round = v.U32("r")
+		} else {
+			ti.Round = small32("r")
+		}
+		ti.Step = cstypes.RoundStepType(v.U8("step"))
+		return ti
 	default:
 		v.Cover("roundstate")
-		return types.EventDataRoundState{Height: v.U64("h"), Round: v.U32("r"), Step: "RoundStepPrevote"}
+		w := v.Choice("wide", 2)
+		rs := types.EventDataRoundState{Step: "RoundStepPrevote"}
+		if w == 0 {
+			rs.Height, rs.Round = v.U64("h"), small32("r")
+		} else {
+			rs.Height, rs.Round = small64("h"), v.U32("r")
+		}
+		return rs
 	}
 }
 
@@ -119,11 +182,16 @@ func VerifC15_W2(v *VerifV) {
 // distinct buffers compared in one run (CRC32C strength itself is outside the claim).
 func VerifC15_W3(v *VerifV) {
 	verifV = v
+	verifCRCInjective = true // listed assumption: the checksum differs on the distinct buffers compared in one run
 	var buf bytes.Buffer
 	enc := NewWALEncoder(&buf)
 	ts := time.Unix(1600000000, 0).UTC()
-	m1 := EndHeightMessage{Height: v.I64("h1")}
-	m2 := timeoutInfo{Duration: time.Duration(v.I64("dur")), Height: v.U64("h2"), Round: v.U32("r2"), Step: cstypes.RoundStepType(v.U8("s2"))}
+	h1 := v.I64("h1")
+	v.Assume(h1 >= 0 && h1 < 1<<14)
+	h2, r2 := v.U64("h2"), v.U32("r2")
+	v.Assume(h2 < 128 && r2 < 128)
+	m1 := EndHeightMessage{Height: h1}
+	m2 := timeoutInfo{Duration: time.Duration(1000), Height: h2, Round: r2, Step: cstypes.RoundStepType(v.U8("s2") & 7)}
 	v.Assert(enc.Encode(&TimedWALMessage{Time: ts, Msg: m1}) == nil, "C15.corrupt.encode")
 	n1 := buf.Len()
 	v.Assert(enc.Encode(&TimedWALMessage{Time: ts, Msg: m2}) == nil, "C15.corrupt.encode")
@@ -138,14 +206,19 @@ func VerifC15_W3(v *VerifV) {
 		firstIntact = cut >= n1
 		v.Cover("truncated")
 	case 1: // one byte replaced by a different value, anywhere
-		pos := v.Len("pos", 0, n-1)
+		// header bytes of both records, and one payload byte of each
+		cand := []int{0, 3, 4, 7, 9, n1, n1 + 3, n1 + 4, n1 + 7, n1 + 10}
+		if v.Param("G") > 5 {
+			cand = []int{0, 1, 2, 3, 4, 5, 6, 7, 9, n1, n1 + 1, n1 + 2, n1 + 3, n1 + 4, n1 + 5, n1 + 6, n1 + 7, n1 + 10}
+		}
+		pos := cand[v.Choice("pos", len(cand))]
 		nb := v.U8("newbyte")
 		v.Assume(nb != log[pos])
 		log[pos] = nb
 		firstIntact = pos >= n1
 		v.Cover("byte-changed")
 	case 2: // garbage suffix
-		g := v.Bytes("garbage", v.Len("glen", 1, 9))
+		g := v.Bytes("garbage", v.Len("glen", 1, v.Param("G")))
 		log = append(log, g...)
 		v.Cover("garbage-suffix")
 	}
